@@ -344,23 +344,27 @@ mutual
     | fuel + 1 =>
       match lit "(" cs with
       | none => .fail
-      | some r1 => pElementsOptClose fuel r1 ')'
+      | some r1 => match pElementsOptClose fuel r1 ')' with
+          | .ok (es, _) r => .ok es r
+          | .fail => .fail
+          | .unsup w => .unsup w
+          | .oof => .oof
 
-  /-- `container_elements? ~ ","? ~ <close>` -/
-  def pElementsOptClose (fuel : Nat) (cs : List Char) (close : Char) : PR (List SExpr) :=
+  /-- `container_elements? ~ ","? ~ <close>`; the flag says whether the optional comma was there -/
+  def pElementsOptClose (fuel : Nat) (cs : List Char) (close : Char) : PR (List SExpr × Bool) :=
     match fuel with
     | 0 => .oof
     | fuel + 1 =>
       match pElements fuel cs with
       | .ok es r2 =>
-          let r3 := match lit "," r2 with | some r => r | none => r2
+          let (r3, trailing) := match lit "," r2 with | some r => (r, true) | none => (r2, false)
           match litRaw [close] (skipWs r3) with
-          | some r4 => .ok es r4
+          | some r4 => .ok (es, trailing) r4
           | none => .fail
       | .fail =>
-          let r3 := match lit "," cs with | some r => r | none => cs
+          let (r3, trailing) := match lit "," cs with | some r => (r, true) | none => (cs, false)
           match litRaw [close] (skipWs r3) with
-          | some r4 => .ok [] r4
+          | some r4 => .ok ([], trailing) r4
           | none => .fail
       | .unsup w => .unsup w
       | .oof => .oof
@@ -393,7 +397,7 @@ mutual
           | .oof => .oof
 
   /-- `expression3 = _{ STRING | RAW_STRING | FORMATTED_STRING | bool | NUMBER_ANY | container
-        | "(" ~ expression ~ ")" | lambda_func | tuple | turbofish_cname | dyn_bind_cname | CNAME }` -/
+        | lambda_func | tuple | turbofish_cname | dyn_bind_cname | CNAME }` -/
   def pExpression3 (fuel : Nat) (cs : List Char) : PR SExpr :=
     match fuel with
     | 0 => .oof
@@ -429,34 +433,28 @@ mutual
         -- container = { "[" ~ container_elements? ~ ","? ~ "]" }
         else if c == '[' then
           match pElementsOptClose fuel rest ']' with
-          | .ok es r => .ok (.arr es) r
+          | .ok (es, _) r => .ok (.arr es) r
           | other => match other with
             | .fail => .fail
             | .unsup w => .unsup w
             | _ => .oof
         else if c == '(' then
-          -- "(" ~ expression ~ ")"
-          match (match pExpression fuel rest with
-                 | .ok e r1 => match lit ")" r1 with
-                     | some r2 => PR.ok e r2
-                     | none => .fail
-                 | other => other) with
-          | .ok e r => .ok e r
+          -- lambda_func = { "(" ~ function_parameters_opt ~ ")" ~ "->" ~ function_body } is tried first; it is outside the
+          -- fragment: a text that starts like one (`(name : …` or `() ->`) is answered `unsup`
+          if (match cname rest with
+              | some (_, r1) => (match skipWs r1 with | ':' :: ':' :: _ => false | ':' :: _ => true | _ => false)
+              | none => (match lit ")" rest with | some r1 => (lit "->" r1).isSome | none => false)) then .unsup "lambda"
+          else
+          -- tuple = { "(" ~ container_elements? ~ trailing_comma? ~ ")" } and the `Rule::tuple` arm: a single element
+          -- without trailing comma is the parenthesised expression itself
+          match pElementsOptClose fuel rest ')' with
+          | .ok (es, trailing) r =>
+              match es, trailing with
+              | [e], false => .ok e r
+              | _, _ => .ok (.tup es) r
+          | .fail => .fail
           | .unsup w => .unsup w
           | .oof => .oof
-          | .fail =>
-            -- lambda_func: "(" ~ function_parameters_opt ~ ")" ~ "->" … — outside the fragment; recognised so that
-            -- it is never mistaken for a tuple
-            if (match cname rest with
-                | some (_, r1) => (match skipWs r1 with | ':' :: ':' :: _ => false | ':' :: _ => true | _ => false)
-                | none => (match lit ")" rest with | some r1 => (lit "->" r1).isSome | none => false)) then .unsup "lambda"
-            else
-            -- tuple = { "(" ~ container_elements? ~ ","? ~ ")" }
-            match pElementsOptClose fuel rest ')' with
-            | .ok es r => .ok (.tup es) r
-            | .fail => .fail
-            | .unsup w => .unsup w
-            | .oof => .oof
         else if isIdStart c then
           let (a, after) := spanChars isIdCont rest
           -- turbofish_cname `CNAME{..}` / dyn_bind_cname `CNAME<types>`: outside the fragment.  A `<` after a name
